@@ -365,14 +365,107 @@ static void giant_one(int kind) {
 	vh_batch_exit();
 }
 
+/* ---- a multi-entry data block whose entry bytes cross 4 GiB (thorough tier of C09, about 9 GiB of memory per case).
+ * The restart array of a block switches from 32-bit to 64-bit offsets once the entry bytes exceed UINT32_MAX, so the size a block WILL have
+ * after the next entry is not "size now + entry": the writer's admission test has to use the width the finished block will use.
+ *   entries: npre small ones (4-byte keys, 1-byte values), then "b" -> V1 zero bytes (entry bytes end 2^20 below 2^32), then "c" -> 2^21 bytes;
+ *   restart interval 1 (R1 = npre+1 restart points before the last add), no compression;
+ *   block size B = (32-bit-width estimate before the last add: entries + 4*R1 + 4) + 15 + klen + vlen + 1 + d
+ * Oracle, exactly the two-sided rule of the statement: a block holding more than one entry is at most B bytes; a block is closed only if the
+ * next entry (15 bytes of header allowed) would bring it to B, where "would bring it to" is computed with the restart width the block would
+ * then have. Plus the container facts the independent decoder checks elsewhere: length prefix = entries + width*restarts + 4, and the round trip. ---- */
+typedef struct { int npre; long d; } xcase_t;
+static void xrender(char *b, size_t n, void *ctx) { xcase_t *x = ctx; snprintf(b, n, "X:%d:%ld", x->npre, x->d); }
+static size_t x_varint_len(uint64_t v) { size_t n = 1; while (v >= 128) { v >>= 7; n++; } return n; }
+static void cross4g_one(int npre, long d) {
+	xcase_t x = { npre, d };
+	vh_case_begin(xrender, &x);
+	if (!vh_batch_fork()) { vh_case_end(); return; }
+	vh_watchdog_s = 1200;
+	const size_t V2 = (size_t) 1 << 21, SRC = (size_t) 1 << 32;
+	const uint8_t *zero = mmap(NULL, SRC, PROT_READ, MAP_PRIVATE | MAP_ANONYMOUS | MAP_NORESERVE, -1, 0);
+	if (zero == MAP_FAILED) { printf("@note \"cross4g case skipped: cannot map a 4 GiB zero source on this machine\"\n"); VH_COUNT("giant_skipped_no_memory", 1); vh_case_end(); vh_batch_exit(); }
+	size_t pre = (size_t) npre * (3 + 4 + 1);                           /* shared=0, nonshared=4, vlen=1: three 1-byte varints */
+	size_t S1 = (size_t) UINT32_MAX - ((size_t) 1 << 20);               /* entry bytes before the last add */
+	size_t V1 = S1 - pre - (1 + 1 + 5 + 1);                             /* "b": varint(0) varint(1) varint(V1: 5 bytes) key value */
+	if (x_varint_len(V1) != 5) abort();
+	size_t R1 = (size_t) npre + 1;
+	size_t est = S1 + 4 * R1 + 4 + 15 + 1 + V2;
+	size_t B = est + 1 + (size_t) d;
+	size_t S2 = S1 + 1 + 1 + x_varint_len(V2) + 1 + V2;                 /* entry bytes if the last entry joins the block */
+	int fd = tbl_memfd();
+	struct mtbl_writer_options *o = mtbl_writer_options_init();
+	mtbl_writer_options_set_compression(o, MTBL_COMPRESSION_NONE);
+	mtbl_writer_options_set_block_restart_interval(o, 1);
+	mtbl_writer_options_set_block_size(o, B);
+	struct mtbl_writer *w = mtbl_writer_init_fd(fd, o); mtbl_writer_options_destroy(&o);
+	bool refused = false; char kb[8];
+	for (int i = 0; i < npre; i++) { snprintf(kb, sizeof kb, "a%03d", i); if (mtbl_writer_add(w, (const uint8_t *) kb, 4, (const uint8_t *) "v", 1) != mtbl_res_success) refused = true; }
+	if (mtbl_writer_add(w, (const uint8_t *) "b", 1, zero, V1) != mtbl_res_success) refused = true;
+	vh_case_seq++;
+	if (mtbl_writer_add(w, (const uint8_t *) "c", 1, zero, V2) != mtbl_res_success) refused = true;
+	vh_case_seq++;
+	mtbl_writer_destroy(&w);
+	if (refused) vh_violation("cross4g-refused", "an add in key order was refused");
+	struct mtbl_reader_options *ro = mtbl_reader_options_init(); mtbl_reader_options_set_verify_checksums(ro, true);
+	struct mtbl_reader *rd = mtbl_reader_init_fd(fd, ro); mtbl_reader_options_destroy(&ro);
+	if (!rd) vh_violation("cross4g-unreadable", "the file does not open");
+	else {
+		const struct mtbl_metadata *m = mtbl_reader_metadata(rd);
+		uint64_t nb = mtbl_metadata_count_data_blocks(m), ne = mtbl_metadata_count_entries(m);
+		uint8_t hdr[10] = { 0 }; if (pread(fd, hdr, sizeof hdr, 0) < 1) abort();
+		uint64_t L0 = 0; for (int i = 0, sh = 0; i < 10; i++, sh += 7) { L0 |= (uint64_t) (hdr[i] & 0x7f) << sh; if (!(hdr[i] & 0x80)) break; }
+		if (ne != (uint64_t) npre + 2) vh_violation("cross4g-trailer", "trailer counts %llu entries, %d were accepted", (unsigned long long) ne, npre + 2);
+		if (nb == 1) {
+			size_t want = S2 + 8 * (R1 + 1) + 4;
+			if (L0 != want) vh_violation("cross4g-format", "one block of %d entries with %zu entry bytes: length prefix %llu, a 64-bit restart array of %zu points makes it %zu", npre + 2, S2, (unsigned long long) L0, R1 + 1, want);
+			if (L0 > B) { char key[64]; snprintf(key, sizeof key, "cross4g-oversize:%d:%ld", npre, d); vh_violation(key, "block 0 holds %d entries and is %llu bytes > block size %zu (the admission test counted 4 bytes per restart point, the finished block has 8: %zu restart points)", npre + 2, (unsigned long long) L0, B, R1 + 1); }
+			VH_COUNT("cross4g_one_block", 1);
+		} else if (nb == 2) {
+			size_t want = S1 + 4 * R1 + 4;
+			if (L0 != want) vh_violation("cross4g-format", "first block of %d entries with %zu entry bytes: length prefix %llu, expected %zu", npre + 1, S1, (unsigned long long) L0, want);
+			size_t wb_entries = S1 + 15 + 1 + V2;
+			size_t would = wb_entries + (wb_entries > UINT32_MAX ? 8 : 4) * R1 + 4;
+			if (would < B) vh_violation("cross4g-early", "block 0 (%zu bytes) closed early: the next entry (1+%zu+15) would only bring it to %zu < %zu", want, V2, would, B);
+			VH_COUNT("cross4g_two_blocks", 1);
+		} else vh_violation("cross4g-blocks", "%llu data blocks for %d entries", (unsigned long long) nb, npre + 2);
+		struct mtbl_iter *it = mtbl_source_iter(mtbl_reader_source(rd)); const uint8_t *k, *v; size_t kl, vl; int n = 0;
+		while (mtbl_iter_next(it, &k, &kl, &v, &vl) == mtbl_res_success) {
+			vh_case_seq++;
+			bool ok;
+			if (n < npre) { snprintf(kb, sizeof kb, "a%03d", n); ok = kl == 4 && !memcmp(k, kb, 4) && vl == 1 && v[0] == 'v'; }
+			else { size_t wl = n == npre ? V1 : V2; ok = n < npre + 2 && kl == 1 && k[0] == (n == npre ? 'b' : 'c') && vl == wl; if (ok) { for (size_t i = 0; i < wl; i += 4096) if (v[i]) { ok = false; break; } if (v[wl - 1]) ok = false; } }
+			if (!ok) { vh_violation("cross4g-roundtrip", "entry #%d reads back with key length %zu, value length %zu or other bytes", n, kl, vl); break; }
+			n++;
+		}
+		if (n != npre + 2) vh_violation("cross4g-roundtrip", "iteration returned %d of %d entries", n, npre + 2);
+		mtbl_iter_destroy(&it);
+		it = mtbl_source_get(mtbl_reader_source(rd), (const uint8_t *) "c", 1);
+		if (!it || mtbl_iter_next(it, &k, &kl, &v, &vl) != mtbl_res_success || kl != 1 || k[0] != 'c' || vl != V2) vh_violation("cross4g-roundtrip", "get(\"c\") (the entry beyond the 4 GiB mark) does not return it");
+		if (it) mtbl_iter_destroy(&it);
+		mtbl_reader_destroy(&rd);
+	}
+	close(fd);
+	VH_COUNT("cases", 1); VH_COUNT("transitions", npre + 2 + npre + 3); VH_COUNT("cross4g_tables", 1);
+	vh_sig(vh_mix(vh_mix(0xc4055, npre), d));
+	vh_case_end();
+	vh_batch_exit();
+}
+static void cross4g(void) {
+	static const struct { int npre; long d; } X[] = { { 0, 0 }, { 0, 1 }, { 0, 4 }, { 100, 0 }, { 100, 401 }, { 100, 404 } }     /* one block would exceed B by 4*R1-2-d bytes: d = 4*R1-3 is the last such case; from d = 4*R1 on the entry fits */;
+	for (size_t i = 0; i < sizeof X / sizeof X[0]; i++) cross4g_one(X[i].npre, X[i].d);
+}
+
 int main(int argc, char **argv) {
 	vh_init(argc, argv);
 	P01 = !strcmp(vh_prop, "C01"); P09 = !strcmp(vh_prop, "C09"); P10 = !strcmp(vh_prop, "C10");
 	if (!P01 && !P09 && !P10) P01 = P09 = P10 = 1;
 	static tcase c;
 	if (vh_case_arg && vh_case_arg[0] == 'Z') { giant_one(atoi(vh_case_arg + 2)); return vh_finish(); }
+	if (vh_case_arg && vh_case_arg[0] == 'X') { int np; long dd; if (sscanf(vh_case_arg, "X:%d:%ld", &np, &dd) != 2) return 2; cross4g_one(np, dd); return vh_finish(); }
 	if (vh_case_arg) { if (replay(vh_case_arg)) fprintf(stderr, "cannot parse case %s\n", vh_case_arg); return vh_finish(); }
 	const char *mode = vh_arg(0, "struct");
+	if (!strcmp(mode, "cross4g")) { if (vh_shard == 0) cross4g(); return vh_finish(); }
 	if (!strcmp(mode, "giant")) { if (vh_shard == 0) { giant_one(0); giant_one(1); } return vh_finish(); }
 	uint64_t idx = 0;
 	static const int comps[6] = { 0, 1, 3, 4, 5, 2 };
